@@ -291,6 +291,84 @@ def _write_if_changed(path, content):
     return False
 
 
+def translate_cli():
+    """ode_analyzer.py as data: the argparse table, which attribute of the parsed arguments feeds which keyword of the
+    `odetoolbox.analysis` call, the normalisation of --preserve-expressions, the expression the result name is computed
+    from, and the order of the steps (with their exits).  `Proofs/RefineCli.lean` states that these are what `Model/Cli.lean`
+    assumes."""
+    tree = ast.parse(_src("ode_analyzer.py"))
+    main = None
+    for node in tree.body:
+        if isinstance(node, ast.If) and "__main__" in ast.unparse(node.test):
+            main = node
+    if main is None:
+        raise Unsupported("no `if __name__ == '__main__'` block")
+    args, kws, steps = [], None, []
+    norm, resname = None, None
+
+    def lit(e):
+        try:
+            return repr(ast.literal_eval(e))
+        except Exception:
+            return ast.unparse(e)
+    for st in main.body:
+        u = ast.unparse(st)
+        if isinstance(st, ast.Assign) and "ArgumentParser" in u:
+            steps.append("make-parser")
+        elif isinstance(st, ast.Expr) and isinstance(st.value, ast.Call) and u.startswith("argparser.add_argument"):
+            c = st.value
+            kw = {k.arg: k.value for k in c.keywords}
+            args.append((ast.literal_eval(c.args[0]), lit(kw["action"]) if "action" in kw else "", lit(kw["nargs"]) if "nargs" in kw else "",
+                         lit(kw["default"]) if "default" in kw else "", lit(kw["type"]) if "type" in kw else ""))
+        elif isinstance(st, ast.Assign) and "parse_args" in u:
+            steps.append("parse-args")
+        elif isinstance(st, ast.If) and "preserve_expressions" in ast.unparse(st.test):
+            norm = u
+            steps.append("normalise-preserve")
+        elif u.startswith("_init_logging") or u.startswith("logging."):
+            steps.append("log")
+        elif isinstance(st, ast.If) and "os.path.isfile" in ast.unparse(st.test):
+            exits = [ast.unparse(x) for x in ast.walk(st) if isinstance(x, ast.Call) and ast.unparse(x.func) == "sys.exit"]
+            steps.append("missing-file:" + "|".join([ast.unparse(st.test)] + exits))
+        elif isinstance(st, ast.With) and "json.load" in u:
+            exits = [ast.unparse(x) for x in ast.walk(st) if isinstance(x, ast.Call) and ast.unparse(x.func) == "sys.exit"]
+            hs = [ast.unparse(h.type) if h.type else "bare" for x in ast.walk(st) if isinstance(x, ast.Try) for h in x.handlers]
+            steps.append("load-json:" + "|".join(hs + exits))
+        elif isinstance(st, ast.Try) and "odetoolbox.analysis" in u:
+            call = next(x for x in ast.walk(st) if isinstance(x, ast.Call) and ast.unparse(x.func) == "odetoolbox.analysis")
+            kws = [(k.arg, ast.unparse(k.value)) for k in call.keywords]
+            pos = [ast.unparse(a) for a in call.args]
+            exits = [ast.unparse(x) for x in ast.walk(st) if isinstance(x, ast.Call) and ast.unparse(x.func) == "sys.exit"]
+            hs = [ast.unparse(h.type) if h.type else "bare" for h in st.handlers]
+            steps.append("analysis:" + "|".join(pos + hs + exits))
+            if st.finalbody or st.orelse:
+                raise Unsupported("try/else or try/finally around the analysis call")
+        elif isinstance(st, ast.Assign) and "_result.json" in u:
+            steps.append("result-name:" + ast.unparse(st.value))
+        elif isinstance(st, ast.Assign) and "basename" in u and isinstance(st.targets[0], ast.Name):
+            resname = u
+            steps.append("result-stem")
+        elif isinstance(st, ast.With) and "outfile.write" in u:
+            steps.append("write:" + "|".join(ast.unparse(x) for x in ast.walk(st) if isinstance(x, ast.Call) and ast.unparse(x.func) in ("open", "outfile.write")))
+        else:
+            raise Unsupported("statement of the script not recognised: " + u[:80])
+    if kws is None or norm is None or resname is None:
+        raise Unsupported("analysis call / preserve normalisation / result name not found")
+    lean = ["/-! GENERATED from /repo/ode_analyzer.py -- do not edit. -/", "namespace OdeVerif.Generated", "",
+            "/-- `argparser.add_argument(...)` calls: (name, action, nargs, default, type) as written -/",
+            "def cliArguments : List (String × String × String × String × String) := [",
+            ",\n".join("  (" + ", ".join(_lean_str(x) for x in a) + ")" for a in args), "]", "",
+            "/-- keyword arguments of the `odetoolbox.analysis` call and the expressions they are fed from -/",
+            "def cliApiKeywords : List (String × String) := [" + ", ".join("(%s, %s)" % (_lean_str(k), _lean_str(v)) for k, v in kws) + "]", "",
+            "/-- the normalisation of `--preserve-expressions`, verbatim -/",
+            "def cliPreserveNormalisation : String := " + _lean_str(norm).replace("\n", "\\n"), "",
+            "/-- the statement computing the stem of the result file name, verbatim -/",
+            "def cliResultStem : String := " + _lean_str(resname), "",
+            "/-- the steps of the script in order, with the tests / handlers / exits they contain -/",
+            "def cliSteps : List String := [", ",\n".join("  " + _lean_str(x) for x in steps), "]", "", "end OdeVerif.Generated", ""]
+    return "\n".join(lean), {"args": len(args), "keywords": kws, "steps": len(steps)}
+
+
 def translate_group(gname):
     """one Generated/Py*.lean file from harness/translate/specs.py via the generic translator"""
     from . import py2lean, specs
@@ -323,7 +401,7 @@ def regenerate_all(outdir):
     os.makedirs(outdir, exist_ok=True)
     res = {"changed": [], "errors": {}, "info": {}}
     from . import specs as _specs
-    jobs = [("DrawDecision", translate_draw_decision), ("Constants", translate_constants)]
+    jobs = [("DrawDecision", translate_draw_decision), ("Constants", translate_constants), ("CliTable", translate_cli)]
     jobs += [(g, (lambda g=g: translate_group(g))) for g in _specs.GROUPS]
     for name, fn in jobs:
         try:
